@@ -35,6 +35,7 @@ FirstOk(o) == hist # <<>> \/ o.op \in {"put", "begin"}
 PNext == \/ /\ Len(hist) < MaxLen
             /\ \E o \in AllOps :
                  /\ Enabled(st, o) /\ FirstOk(o)
+                 /\ "CRASH" \notin Step(st, o).tags      \* known to kill the process (see EcTag): not generated
                  /\ st' = Step(st, o)
                  /\ hist' = Append(hist, o)
                  /\ reads' = reads + (IF st'.res.kind = "get" /\ st'.res.v \in Blobs THEN 1 ELSE 0)
